@@ -292,12 +292,18 @@ func genTxnScriptF(g *Gen, native, hack, pad bool, steps int, flavor string) []s
 				snap := t.snapshot() // before the op's own windows exist
 				n1 := t.now()
 				t.lines = append(t.lines, fmt.Sprintf("prop.c10.reload a %s %d %d", snap, n1, t.nowMaybe()))
+			case !native && (flavor == "" || flavor == "c11h") && t.r.Intn(3) == 0:
+				// the application commits while LoadOnce waits for the write lock
+				snap := t.snapshot()
+				t.lines = append(t.lines, fmt.Sprintf("txn.loadheld a %s %s %d %s %s", snap, ls, t.now(), cut, t.appOps(1+t.r.Intn(3))))
 			default:
 				t.lines = append(t.lines, fmt.Sprintf("txn.load a %s %s %d %s", t.snapshot(), ls, t.now(), cut))
 			}
 		case 5:
 			if flavor == "c06" || flavor == "c10" {
 				t.lines = append(t.lines, fmt.Sprintf("prop.c06.send a %d %s", t.now(), cut))
+			} else if !native && t.r.Intn(3) == 0 {
+				t.lines = append(t.lines, fmt.Sprintf("txn.sendheld a %d %s %s", t.now(), cut, t.appOps(1+t.r.Intn(3))))
 			} else {
 				t.lines = append(t.lines, fmt.Sprintf("txn.send a %d %s", t.now(), cut))
 			}
@@ -330,6 +336,9 @@ func genTxnFlavor(flavor string) func(g *Gen, n int) {
 				native = true
 			}
 			hack := !native && g.R.Intn(3) == 0
+			if flavor == "c20" {
+				native, hack = false, true // the mirror cycle on duplicate-keys DBIs
+			}
 			pad := g.R.Intn(4) == 0
 			class := "shadow"
 			if native {
